@@ -89,6 +89,13 @@ def cases(tier, seed):
                 continue
             for emit in EMITS:
                 yield dict(kind="gen", input=inp, parse="infer", emit=emit, tpl="{name}Config", infer_imports=True, prepend=False, imports_file=False, existing=None, input_as=input_as)
+    # further options of the command: --no-word-wrap, --decorator (class emit), --emit-call (function input carrying a body)
+    for inp in inputs[:7]:
+        for emit in EMITS:
+            for flags in (["--no-word-wrap"], ["--decorator", "dataclass"], ["--emit-call"], ["--no-word-wrap", "--emit-call", "--decorator", "dataclass", "--decorator", "total_ordering"]):
+                if "--decorator" in flags and emit != "class" and len(flags) == 2:
+                    continue
+                yield dict(kind="gen", input=inp, parse="infer", emit=emit, tpl="{name}Config", infer_imports=True, prepend=False, imports_file=False, existing=None, flags=flags)
     # the non-clobbering guard: output present (empty / with content)
     for emit in EMITS:
         for existing in ("content", "empty"):
@@ -192,6 +199,9 @@ def _run(case):
                 src = modname + ".MAPPING"
             parse = kinds[0] if case["parse"] == "explicit" else "infer"
             argv = ["gen", "--name-tpl", case["tpl"], "--input-mapping", src, "--parse", parse, "--emit", case["emit"], "-o", out]
+            if case.get("flags"):
+                argv += case["flags"]
+                ctx["flags"] = ",".join(sorted({f for f in case["flags"] if f.startswith("--")}))
             if case["infer_imports"]:
                 argv.append("--emit-and-infer-imports")
             if case["prepend"]:
